@@ -184,7 +184,13 @@ func configPlumbing(c *core.Ctx, pkgS string, want func(st *types.Named, f *type
 				}
 			})
 		}
-		if reads > 0 && !f.st.Obj().Exported() || reads > 0 && !token.IsExported(f.name) {
+		nonConstDefaults := 0
+		for _, d := range defaults {
+			if _, isC := core.Strip(d.s.Val).(*ssa.Const); !isC {
+				nonConstDefaults++
+			}
+		}
+		if (reads > 0 && !f.st.Obj().Exported() || reads > 0 && !token.IsExported(f.name)) && (len(setters) > 0 || nonConstDefaults == 0) {
 			if len(setters) == 0 {
 				c.Fail(f.key()+":reachable", f.st.Obj().Pos(), "the package reads %s but nothing ever stores a caller-supplied value into it: the option that configures it is dead, the configured value never takes effect", f.key())
 			} else {
@@ -200,7 +206,7 @@ func configPlumbing(c *core.Ctx, pkgS string, want func(st *types.Named, f *type
 			if par.Parent() != F {
 				why = append(why, "the stored value is not a parameter of the exported entry point")
 			}
-			if !types.Identical(par.Type(), f.ftype) {
+			if !types.Identical(par.Type().Underlying(), f.ftype.Underlying()) {
 				why = append(why, "the parameter's type differs from the field's (a conversion changes what is configured)")
 			}
 			for _, r := range core.Returns(S) {
@@ -211,7 +217,19 @@ func configPlumbing(c *core.Ctx, pkgS string, want func(st *types.Named, f *type
 			}
 			base := core.ResolveFree(core.Strip(s.fa.X))
 			bp, _ := base.(*ssa.Parameter)
+			_, freshObj := base.(*ssa.Alloc)
+			if freshObj {
+				// a copy of an existing object is not a fresh one
+				for _, st2 := range core.StoresTo(base.(*ssa.Alloc)) {
+					if _, isLd := core.Strip(st2.Val).(*ssa.UnOp); isLd {
+						freshObj = false
+					}
+				}
+			}
 			switch {
+			case bp == nil && freshObj && S == F:
+				// constructor form: a fresh object built from the function's own parameters (what becomes of it is
+				// the dispatch rules' business)
 			case bp == nil:
 				why = append(why, "the value is stored into an object that is neither the receiver nor the object the option is applied to (e.g. a copy)")
 			case S == F:
@@ -350,6 +368,38 @@ func resolvesTo(a, obj ssa.Value) bool {
 	return true
 }
 
+// denotes: a stands for the configured object obj where a function hands it
+// on: obj itself; the address of a local that holds nothing but obj (a value
+// result kept in a variable); or a copy of *obj taken after the options were
+// applied (after: the application is not reachable from the copy).
+func denotes(a, obj ssa.Value, applied ssa.Instruction) bool {
+	if resolvesTo(a, obj) {
+		return true
+	}
+	if al, ok := core.ResolveFree(core.Strip(a)).(*ssa.Alloc); ok && ssa.Value(al) != obj {
+		sts := core.StoresTo(al)
+		if len(sts) > 0 {
+			all := true
+			for _, st := range sts {
+				if !denotes(st.Val, obj, applied) {
+					all = false
+				}
+			}
+			if all {
+				return true
+			}
+		}
+	}
+	if ld, ok := core.Strip(a).(*ssa.UnOp); ok && ld.Op == token.MUL && resolvesTo(ld.X, obj) {
+		return applied == nil || ld.Parent() != applied.Parent() || !core.Reachable(core.After(ld), applied)
+	}
+	return false
+}
+
+func sameObjType(a, b types.Type) bool {
+	return types.Identical(core.Deref(a), core.Deref(b))
+}
+
 // optionFanOut: every function of the package that takes a list of options
 // applies each element, unconditionally, to the object it then uses or
 // returns — or hands the whole list to a package function that does, and uses
@@ -448,7 +498,7 @@ func optionFanOutOf(c *core.Ctx, pkgS string, fn *ssa.Function, last *ssa.Parame
 				break
 			}
 		}
-		if isPtrToPkgStruct(d.Type()) {
+		if isPtrToPkgStruct(d.Type()) || isPtrToPkgStruct(types.NewPointer(d.Type())) {
 			obj = d
 		} else {
 			why = append(why, "the function the list is handed to does not return the configured object")
@@ -462,8 +512,8 @@ func optionFanOutOf(c *core.Ctx, pkgS string, fn *ssa.Function, last *ssa.Parame
 		used := 0
 		for _, r := range core.Returns(fn) {
 			for _, res := range r.Results {
-				if types.Identical(res.Type(), obj.Type()) {
-					if resolvesTo(res, obj) {
+				if sameObjType(res.Type(), obj.Type()) && isPtrToPkgStruct(types.NewPointer(core.Deref(res.Type()))) {
+					if denotes(res, obj, skip) {
 						used++
 					} else {
 						why = append(why, "the function returns another object than the one the options were applied to")
@@ -481,20 +531,11 @@ func optionFanOutOf(c *core.Ctx, pkgS string, fn *ssa.Function, last *ssa.Parame
 				return
 			}
 			for _, a := range k.Args {
-				if types.Identical(a.Type(), obj.Type()) {
-					if resolvesTo(a, obj) {
+				if sameObjType(a.Type(), obj.Type()) && isPtrToPkgStruct(types.NewPointer(core.Deref(a.Type()))) {
+					if denotes(a, obj, skip) {
 						used++
 					} else {
-						why = append(why, "a package function is handed another option object than the one the options were applied to")
-					}
-				}
-				// the configured object handed on by value: a copy taken after the options were applied
-				if types.Identical(a.Type(), core.Deref(obj.Type())) && !types.Identical(a.Type(), obj.Type()) {
-					ld, isLd := core.Strip(a).(*ssa.UnOp)
-					if isLd && ld.Op == token.MUL && resolvesTo(ld.X, obj) && skip != nil && !core.Reachable(core.After(ld), skip) {
-						used++
-					} else {
-						why = append(why, "a package function is handed a copy of the option object that was not taken after the options were applied to it")
+						why = append(why, "a package function is handed another option object than the one the options were applied to (or a copy taken before they were applied)")
 					}
 				}
 			}
